@@ -491,6 +491,97 @@ ensures
 @*/
 }
 
+impl SlotVotes {
+/*@ extract src/consensus/pool/slot_state.rs :: impl SlotVotes/fn skip_votes
+as skip_votes_body
+props C03
+ret r
+rewrite[R4] `self.skip.iter().filter_map(Clone::clone).collect()` => `let mut verif_out: Vec<SkipVote> = Vec::new(); let mut verif_i: usize = 0; while verif_i < self.skip.len() { if let Some(verif_x) = self.skip[verif_i].clone() { verif_out.push(verif_x); } verif_i += 1; } verif_out`
+ensures
+        // [C03.vote_helpers_return_the_stored_votes_in_index_order] (the contract ASSUMED for `skip_votes` in spec.rs, proved here on the real body)
+        r@.len() == idx_where(self.skip@.len() as int, self.p_skip()).len(),
+        forall|i: int| 0 <= i < r@.len() ==> Some(#[trigger] r@[i]) == self.skip@[idx_where(self.skip@.len() as int, self.p_skip())[i]],
+loop 0
+        invariant
+            verif_i <= self.skip@.len(),
+            verif_out@.len() == idx_where(verif_i as int, self.p_skip()).len(),
+            forall|i: int| 0 <= i < verif_out@.len() ==> Some(#[trigger] verif_out@[i]) == self.skip@[idx_where(verif_i as int, self.p_skip())[i]],
+        decreases self.skip@.len() - verif_i,
+@*/
+/*@ extract src/consensus/pool/slot_state.rs :: impl SlotVotes/fn skip_fallback_votes
+as skip_fallback_votes_body
+props C03
+ret r
+rewrite[R4] `self.skip_fallback.iter().filter_map(Clone::clone).collect()` => `let mut verif_out: Vec<SkipFallbackVote> = Vec::new(); let mut verif_i: usize = 0; while verif_i < self.skip_fallback.len() { if let Some(verif_x) = self.skip_fallback[verif_i].clone() { verif_out.push(verif_x); } verif_i += 1; } verif_out`
+ensures
+        // [C03.vote_helpers_return_the_stored_votes_in_index_order] (the contract ASSUMED for `skip_fallback_votes` in spec.rs, proved here on the real body)
+        r@.len() == idx_where(self.skip_fallback@.len() as int, self.p_skip_fb()).len(),
+        forall|i: int| 0 <= i < r@.len() ==> Some(#[trigger] r@[i]) == self.skip_fallback@[idx_where(self.skip_fallback@.len() as int, self.p_skip_fb())[i]],
+loop 0
+        invariant
+            verif_i <= self.skip_fallback@.len(),
+            verif_out@.len() == idx_where(verif_i as int, self.p_skip_fb()).len(),
+            forall|i: int| 0 <= i < verif_out@.len() ==> Some(#[trigger] verif_out@[i]) == self.skip_fallback@[idx_where(verif_i as int, self.p_skip_fb())[i]],
+        decreases self.skip_fallback@.len() - verif_i,
+@*/
+/*@ extract src/consensus/pool/slot_state.rs :: impl SlotVotes/fn final_votes
+as final_votes_body
+props C03
+ret r
+rewrite[R4] `self.finalize.iter().filter_map(Clone::clone).collect()` => `let mut verif_out: Vec<FinalVote> = Vec::new(); let mut verif_i: usize = 0; while verif_i < self.finalize.len() { if let Some(verif_x) = self.finalize[verif_i].clone() { verif_out.push(verif_x); } verif_i += 1; } verif_out`
+ensures
+        // [C03.vote_helpers_return_the_stored_votes_in_index_order] (the contract ASSUMED for `final_votes` in spec.rs, proved here on the real body)
+        r@.len() == idx_where(self.finalize@.len() as int, self.p_final()).len(),
+        forall|i: int| 0 <= i < r@.len() ==> Some(#[trigger] r@[i]) == self.finalize@[idx_where(self.finalize@.len() as int, self.p_final())[i]],
+loop 0
+        invariant
+            verif_i <= self.finalize@.len(),
+            verif_out@.len() == idx_where(verif_i as int, self.p_final()).len(),
+            forall|i: int| 0 <= i < verif_out@.len() ==> Some(#[trigger] verif_out@[i]) == self.finalize@[idx_where(verif_i as int, self.p_final())[i]],
+        decreases self.finalize@.len() - verif_i,
+@*/
+}
+
+impl SlotVotes {
+/*@ extract src/consensus/pool/slot_state.rs :: impl SlotVotes/fn notar_fallback_votes
+as notar_fallback_votes_body
+props C03
+ret r
+rewrite[R4] `self.notar_fallback .iter() .filter_map(|m| m.get(block_hash).cloned()) .collect()` => `let mut verif_out: Vec<NotarFallbackVote> = Vec::new(); let mut verif_i: usize = 0; while verif_i < self.notar_fallback.len() { let m = &self.notar_fallback[verif_i]; if let Some(verif_x) = m.get(block_hash).cloned() { verif_out.push(verif_x); } verif_i += 1; } verif_out`
+ensures
+        // [C03.vote_helpers_return_the_stored_votes_in_index_order]
+        r@.len() == idx_where(self.notar_fallback@.len() as int, self.p_nf(*block_hash)).len(),
+        forall|i: int| 0 <= i < r@.len() ==> #[trigger] r@[i] == self.notar_fallback@[idx_where(self.notar_fallback@.len() as int, self.p_nf(*block_hash))[i]]@[*block_hash],
+loop 0
+        invariant
+            verif_i <= self.notar_fallback@.len(),
+            verif_out@.len() == idx_where(verif_i as int, self.p_nf(*block_hash)).len(),
+            forall|i: int| 0 <= i < verif_out@.len() ==> #[trigger] verif_out@[i] == self.notar_fallback@[idx_where(verif_i as int, self.p_nf(*block_hash))[i]]@[*block_hash],
+        decreases self.notar_fallback@.len() - verif_i,
+@*/
+/*@ extract src/consensus/pool/slot_state.rs :: impl SlotVotes/fn notar_votes
+as notar_votes_body
+props C03
+ret r
+rewrite[R4] `self.notar .iter() .filter_map(|vote| {` => `let mut verif_out: Vec<NotarVote> = Vec::new(); let mut verif_i: usize = 0; while verif_i < self.notar.len() { let vote = &self.notar[verif_i]; let verif_o: Option<&NotarVote> = {`
+rewrite[R4] `}) .cloned() .collect()` => `}; if let Some(verif_x) = verif_o { verif_out.push(verif_x.clone()); } verif_i += 1; } verif_out`
+ensures
+        // [C03.vote_helpers_return_the_stored_votes_in_index_order]
+        r@.len() == idx_where(self.notar@.len() as int, self.p_notar(*block_hash)).len(),
+        forall|i: int| 0 <= i < r@.len() ==> Some(#[trigger] r@[i]) == self.notar@[idx_where(self.notar@.len() as int, self.p_notar(*block_hash))[i]],
+closure 0
+        params vote: &NotarVote
+        ret o: Option<&NotarVote>
+        ensures o == (if vote.block_hash == *block_hash { Some(vote) } else { None })
+loop 0
+        invariant
+            verif_i <= self.notar@.len(),
+            verif_out@.len() == idx_where(verif_i as int, self.p_notar(*block_hash)).len(),
+            forall|i: int| 0 <= i < verif_out@.len() ==> Some(#[trigger] verif_out@[i]) == self.notar@[idx_where(verif_i as int, self.p_notar(*block_hash))[i]],
+        decreases self.notar@.len() - verif_i,
+@*/
+}
+
 } // mod code
 
 } // verus!
